@@ -329,6 +329,9 @@ Section Exec.
         if (0 <=? ty) && (ty <? 128) && negb (ty =? 47) && forallb Utf8.is_char txt
         then Ok (add_events s (fun tp _ => Cmd.cmd_meta_text tp ty txt))
         else Unsupported U_RUN_CHAR
+    | TPort v =>
+        (* trk.port = port (a field nothing reads); FF 21 01 <port as u8> at the pointer of the current track *)
+        Ok (add_events s (fun tp _ => Cmd.cmd_port tp v))
     end.
 
   Definition step_tok (t : tok) (s : res song) : res song := do sg <- s; step_song t sg.
